@@ -71,6 +71,9 @@ func readThreadList(dec *imapwire.Decoder) (*ThreadData, error) {
 	err := dec.ExpectList(func() error {
 		var num uint32
 		if len(data.SubThreads) == 0 && dec.Number(&num) {
+			if num == 0 {
+				return fmt.Errorf("invalid message number 0")
+			}
 			data.Chain = append(data.Chain, num)
 		} else {
 			sub, err := readThreadList(dec)
